@@ -1041,4 +1041,40 @@ theorem port_conservation_run (c : CaseCfg) (steps : List Step) (i : Nat) :
       = (portsOf ((init c).runSteps steps).env.log).countP (isAsk i) :=
   (portOk_runSteps _ steps (portOk_init c)).bal i
 
+/-! ### the same counts on the history itself -/
+
+/-- answers on ports of job `i` in a history: `reply i false` (= `None`, accepted), `reply i true` (= `Some(job)`, handed
+back), `portClosed i` (the port dropped unanswered together with the exiting factory's mailbox) -/
+def isAnswerEv (i : Nat) : Ev → Bool
+  | .reply k _ => k == i
+  | .portClosed k => k == i
+  | _ => false
+
+/-- dispatches of job `i` that carried an acceptance port -/
+def isPortDispatchEv (i : Nat) : Ev → Bool
+  | .dispatched k _ true => k == i
+  | _ => false
+
+theorem countP_ans (i : Nat) (log : List Ev) : (portsOf log).countP (isAns i) = log.countP (isAnswerEv i) := by
+  induction log with
+  | nil => rfl
+  | cons ev l ih =>
+    have e : portsOf (ev :: l) = portsOf [ev] ++ portsOf l := portsOf_append [ev] l
+    rw [e, List.countP_append, ih, List.countP_cons]
+    cases ev with
+    | dispatched a b c => cases c <;> simp [portsOf, portEv, isAns, isAnswerEv]
+    | reply k b => simp [portsOf, portEv, isAns, isAnswerEv]; omega
+    | portClosed k => simp [portsOf, portEv, isAns, isAnswerEv]; omega
+    | _ => simp [portsOf, portEv, isAns, isAnswerEv]
+
+theorem countP_ask (i : Nat) (log : List Ev) : (portsOf log).countP (isAsk i) = log.countP (isPortDispatchEv i) := by
+  induction log with
+  | nil => rfl
+  | cons ev l ih =>
+    have e : portsOf (ev :: l) = portsOf [ev] ++ portsOf l := portsOf_append [ev] l
+    rw [e, List.countP_append, ih, List.countP_cons]
+    cases ev with
+    | dispatched a b c => cases c <;> simp [portsOf, portEv, isAsk, isPortDispatchEv] <;> omega
+    | _ => simp [portsOf, portEv, isAsk, isPortDispatchEv]
+
 end Factory
